@@ -562,15 +562,15 @@ fn mon_c06(snap: &Snap, timeout_s: u64, armed: &mut BTreeMap<String, u64>) -> Ve
     let mut out = vec![];
     // what was asked for: first stop command in history order decides (the server handles one)
     let mut first_stop: Option<bool> = None; // Some(graceful)
-    for (k, _, _) in &snap.cmds {
-        if let Ev::Stop(g) = k {
-            first_stop.get_or_insert(*g);
-        }
-    }
-    let signal = snap.log.iter().find_map(|(_, _, r)| if let Rec::SignalSent(n) = r { Some(*n) } else { None });
-    if first_stop.is_none() {
-        if let Some(n) = signal {
-            first_stop = Some(n == 15);
+    let mut first_by_signal = false;
+    for (_, _, r) in &snap.log {
+        match r {
+            Rec::CmdSent(Ev::Stop(g)) if first_stop.is_none() => first_stop = Some(*g),
+            Rec::SignalSent(n) if first_stop.is_none() => {
+                first_stop = Some(*n == 15);
+                first_by_signal = true;
+            }
+            _ => {}
         }
     }
     if let Some((_, _, Rec::ServerPanic(m))) = snap.log.iter().find(|(_, _, r)| matches!(r, Rec::ServerPanic(_))) {
@@ -646,7 +646,7 @@ fn mon_c06(snap: &Snap, timeout_s: u64, armed: &mut BTreeMap<String, u64>) -> Ve
     *armed.entry("quiescent_states_after_stop".into()).or_insert(0) += 1;
     let workers_all_gone = snap.workers.iter().all(|w| w.view.is_none());
     // a stop that came in as a signal asks for a system stop: the server sleeps 300 ms before it resolves
-    let by_signal = signal.is_some() && !snap.cmds.iter().any(|(k, _, _)| matches!(k, Ev::Stop(_)));
+    let by_signal = first_by_signal;
     let t_stop = snap.log.iter().zip(&snap.log_ms).find_map(|((_, _, r), ms)| if matches!(r, Rec::StopProcessed) { Some(*ms) } else { None }).unwrap_or(0);
     let t_join = snap.log.iter().zip(&snap.log_ms).find_map(|((_, _, r), ms)| if matches!(r, Rec::AcceptJoin { .. }) { Some(*ms) } else { None });
     let _ = t_stop;
